@@ -25,6 +25,7 @@ def dispatch (line : String) : String :=
   | "c13e" :: r => C13.handle r
   | "c13q" :: r => C13.handleParams r
   | "c13b" :: r => C13.handlePart r
+  | "c13x" :: r => C13.handleErrParts r
   | "c03" :: r => C03.handle r
   | "c06" :: r => C06.handleSem r
   | "c07" :: r => C06.handleIds r
